@@ -27,6 +27,7 @@ w("//@   ensures @C01 @pinned int.power: op == code.OpPower ==> err == nil && pu
 for n, o in cmps:
     w("//@   ensures @C01 int.%s: op == code.Op%s ==> err == nil && pushed1(vm) && topBool(vm, old(ival(left)) %s old(ival(right)))" % (n.lower(), n, o))
 w("//@   ensures @C01 int.badop: %s ==> err != nil && stackSame(vm)" % known(twelve))
+w("//@   ensures int.effect: (err == nil ==> pushed1(vm)) && (err != nil ==> stackSame(vm))")
 w("//@   panics when op == code.OpMod && ival(right) == 0")
 w()
 
@@ -45,6 +46,7 @@ def floatfn(name, lexpr, rexpr, lt, rt, tag):
     for n, o in cmps:
         w("//@   ensures @C01 %s.%s: op == code.Op%s ==> err == nil && pushed1(vm) && topBool(vm, %s %s %s)" % (tag, n.lower(), n, L, o, R))
     w("//@   ensures @C01 %s.badop: %s ==> err != nil && stackSame(vm)" % (tag, known(twelve)))
+    w("//@   ensures %s.effect: (err == nil ==> pushed1(vm)) && (err != nil ==> stackSame(vm))" % tag)
     w("//@   panics when op == code.OpMod && f2i(%s) == 0" % rexpr)
     w()
 
@@ -60,6 +62,7 @@ for n, o in cmps:
     w("//@   ensures @C01 str.%s: op == code.Op%s ==> err == nil && pushed1(vm) && topBool(vm, old(sval(left)) %s old(sval(right)))" % (n.lower(), n, o))
 w("//@   ensures @C01 str.add: op == code.OpAdd ==> err == nil && pushed1(vm) && topStr(vm, old(sval(left)) + old(sval(right)))")
 w("//@   ensures @C01 @C16 str.in: op == code.OpArrayIn ==> err == nil && pushed1(vm) && topBool(vm, strContains(old(sval(right)), old(sval(left))))")
+w("//@   ensures str.effect: (err == nil ==> pushed1(vm)) && (err != nil ==> stackSame(vm))")
 w("//@   ensures @C01 str.badop: %s ==> err != nil && stackSame(vm)" % known([c for c, _ in cmps] + ["Add", "ArrayIn"]))
 w("//@   panics never")
 w()
@@ -122,6 +125,7 @@ def binop():
     # same non-numeric, non-string, non-boolean type: arithmetic and ordering are errors
     w("//@   ensures @C01 bin.nonnum: %s && tag(%s) == tag(%s) && !isNum(%s) && !isStr(%s) && !isBool(%s) && %s && op != code.OpArrayIn && op != code.OpEqual && op != code.OpNotEqual ==> err != nil" % (D2, L, R, L, L, L, notLogic))
     w("//@   ensures @C18 bin.underflow: old(depth(vm)) < 2 ==> err != nil")
+    w("//@   ensures @C18 bin.effect: old(depth(vm)) >= 2 && err == nil ==> replaced2(vm)")
     w("//@   panics when %s && ((isNum(%s) && isNum(%s) && op == code.OpMod && %s && (isInt(%s) && isInt(%s) ? ival(%s) == 0 : f2i(fl(%s)) == 0)) || (isStr(%s) && isRegexp(%s) && %s) || (op == code.OpArrayIn && isArray(%s) && %s && !(isNum(%s) && isNum(%s)) && !(isStr(%s) && isStr(%s))))" % (
         "depth(vm) >= 2", "TT2(vm)", "TT1(vm)", "true", "TT2(vm)", "TT1(vm)", "TT1(vm)", "TT1(vm)", "TT2(vm)", "TT1(vm)", notLogic, "TT1(vm)", "true", "TT2(vm)", "TT1(vm)", "TT2(vm)", "TT1(vm)"))
     w()
